@@ -1099,15 +1099,32 @@ def tril(a, k=0):
 # ---- reductions ---------------------------------------------------------------
 
 def _pysum(vals, start=0):
+    """Left-to-right sum.  Exact concrete zeros are skipped when a symbolic
+    REAL/INT term is present (x + 0 == x exactly there); never in FP64/BITS."""
+    vals = list(vals)
+    if builtins.any(isinstance(v, (SymReal, SymInt)) for v in vals) and \
+            not builtins.any(isinstance(v, (SymFP, SymBits)) for v in vals):
+        nz = [v for v in vals if isinstance(v, Sym) or v != 0]
+        if nz:
+            vals = nz
     r = start
     first = True
     for v in vals:
-        if first and r == 0 and not isinstance(r, Sym):
+        if first and not isinstance(r, Sym) and r == 0:
             r = v
         else:
             r = r + v
         first = False
     return r
+
+
+def _mul0(a, b):
+    """a*b with the exact shortcut 0*x = 0 for REAL/INT proxies."""
+    if isinstance(a, (SymReal, SymInt)) and not isinstance(b, Sym) and b == 0:
+        return 0.0
+    if isinstance(b, (SymReal, SymInt)) and not isinstance(a, Sym) and a == 0:
+        return 0.0
+    return a * b
 
 
 def _reduce_axis(a, axis, fn):
@@ -1488,7 +1505,7 @@ def matmul(a, b):
     out = []
     for i in range(n):
         for j in range(m):
-            out.append(_pysum([av[i * k + t] * bv[t * m + j] for t in range(k)]) if k else 0.0)
+            out.append(_pysum([_mul0(av[i * k + t], bv[t * m + j]) for t in range(k)]) if k else 0.0)
     if a1 and b1:
         return out[0]
     if a1:
